@@ -360,7 +360,7 @@ fn gen_call(r: &mut Rng, sc: &SlotCtx, faults: &Faults, mode: Mode) -> Call {
         2 => Call::InterpInto { x: kx(r), y: ky(r), buf: gen_buf(r, &sc.trailing, faults, false) },
         k @ (3 | 4) => {
             let ty = [QTy::Q0, QTy::Q1, QTy::Q2, QTy::Q3, QTy::QDyn][r.weighted(&[1, 5, 2, 1, 3])];
-            let max_elems = if mode == Mode::C17Miri { 4 } else { 12 };
+            let max_elems = if mode == Mode::C17Miri { 6 } else { 12 };
             let shape = gen_qshape(r, ty, max_elems);
             let n: usize = shape.iter().product();
             let (xs, ys): (Vec<Fb>, Vec<Fb>) = if mode == Mode::C18 {
@@ -422,7 +422,7 @@ fn slot_ctx(r: &mut Rng, cfg: &SlotCfg, faults: &Faults, mode: Mode) -> SlotCtx 
     let ax = cfg.axis_x();
     let ay = if cfg.kind.is_2d() { cfg.axis_y() } else { vec![0.0, 1.0] };
     let f32ok = cfg.elem == Elem::F32;
-    let nk = if mode == Mode::C17Miri { r.range(2, 3) } else { r.range(2, 5) };
+    let nk = if mode == Mode::C17Miri { r.range(2, 4) } else { r.range(2, 5) };
     let mut f = *faults;
     // a non-extrapolating strategy turns out-of-range keys into errors; an extrapolating one
     // evaluates them. NaN on an extrapolating strategy panics inside the library (deterministic).
@@ -466,23 +466,86 @@ pub struct Generated {
     pub faults: Faults,
 }
 
+/// Engine B "hammer" workload: one interpolator, 2-3 threads, many cheap in-range calls on 2-3
+/// hot keys that lie in different segments. Narrow race windows need many colliding calls, and
+/// under Miri the fixed start-up cost dominates, so a dense workload is the efficient one.
+fn gen_hammer(r: &mut Rng) -> Generated {
+    let faults = Faults { oob: false, badbuf: false, strat_err: false, strat_panic: false, crash: false, stall: false, cow: false, badidx: false, mismatch: false };
+    let cfg = loop {
+        let c = gen_slot(r, Mode::C17Miri);
+        if c.elem == Elem::F64 {
+            break c;
+        }
+    };
+    let two = cfg.kind.is_2d();
+    let ax = cfg.axis_x();
+    let ay = if two { cfg.axis_y() } else { vec![0.0, 1.0] };
+    // one key strictly inside each of 2-3 distinct segments (plus sometimes a knot)
+    let seg_keys = |r: &mut Rng, a: &[f64]| -> Vec<f64> {
+        let mut segs: Vec<usize> = (0..a.len() - 1).collect();
+        r.shuffle(&mut segs);
+        segs.truncate(r.range(2, 3).min(segs.len()));
+        let mut k: Vec<f64> = segs.iter().map(|&j| a[j] + (a[j + 1] - a[j]) * *r.pick(&[0.5, 0.25, 0.75])).collect();
+        if r.chance(1, 3) {
+            k.push(a[r.below(a.len())]);
+        }
+        k
+    };
+    let kx = seg_keys(r, &ax);
+    let ky = seg_keys(r, &ay);
+    let n_threads = r.range(2, 3);
+    let mut pool: Vec<Op> = vec![];
+    for _ in 0..r.range(3, 6) {
+        let x = Fb(*r.pick(&kx));
+        let y = if two { Fb(*r.pick(&ky)) } else { Fb(0.0) };
+        let call = match r.weighted(&[4, 3, 3, 1]) {
+            0 => Call::Scalar { x, y },
+            1 => Call::Interp { x, y },
+            2 => {
+                let n = r.range(2, 4);
+                let ty = if r.chance(3, 4) { QTy::Q1 } else { QTy::QDyn };
+                Call::Array {
+                    q: QSpec {
+                        ty,
+                        shape: vec![n],
+                        xs: (0..n).map(|_| Fb(*r.pick(&kx))).collect(),
+                        ys: if two { (0..n).map(|_| Fb(*r.pick(&ky))).collect() } else { vec![] },
+                        ys_shape: None,
+                        lay: Lay::C,
+                        ys_lay: Lay::C,
+                    },
+                }
+            }
+            _ => Call::IndexLeftOf { x, y },
+        };
+        pool.push(Op { slot: 0, call, plan: vec![], yield_mask: 0, check_acc: false });
+    }
+    let threads = (0..n_threads)
+        .map(|_| ThreadSpec { ops: (0..r.range(10, 18)).map(|_| pool[r.below(pool.len())].clone()).collect(), crash_on_fault: false })
+        .collect();
+    Generated { spec: RunSpec { slots: vec![cfg], threads, sched: Sched::RoundRobin { quantum: 1 }, stall: None }, faults }
+}
+
 /// one complete run specification from one seed
 pub fn gen_run(seed: u64, mode: Mode) -> Generated {
     let mut r = Rng::new(seed);
+    if mode == Mode::C17Miri && r.chance(1, 2) {
+        return gen_hammer(&mut r);
+    }
     let faults = Faults::draw(&mut r, mode);
     let n_slots = match mode {
-        Mode::C17Miri => r.weighted(&[0, 3, 1]),
+        Mode::C17Miri => r.weighted(&[0, 4, 1]),
         _ => r.weighted(&[0, 3, 2, 1]),
     };
     let slots: Vec<SlotCfg> = (0..n_slots).map(|_| gen_slot(&mut r, mode)).collect();
     let ctxs: Vec<SlotCtx> = slots.iter().map(|c| slot_ctx(&mut r, c, &faults, mode)).collect();
     let n_threads = match mode {
-        Mode::C17Miri => r.range(2, 3),
+        Mode::C17Miri => r.range(2, 4),
         Mode::C18 => [1, 2, 3, 4, 6, 8][r.weighted(&[3, 4, 3, 2, 1, 1])],
         Mode::C17 => [1, 2, 3, 4, 6, 8, 12, 16][r.weighted(&[2, 5, 4, 4, 2, 2, 1, 1])],
     };
     let max_ops = match mode {
-        Mode::C17Miri => 6,
+        Mode::C17Miri => 10,
         _ => {
             if n_threads > 8 {
                 5
@@ -544,7 +607,7 @@ pub fn gen_run(seed: u64, mode: Mode) -> Generated {
     }
     let threads: Vec<ThreadSpec> = (0..n_threads)
         .map(|_| {
-            let n = r.range(1, max_ops);
+            let n = r.range(if mode == Mode::C17Miri { 4 } else { 1 }, max_ops);
             let ops = (0..n).map(|_| pool[r.below(pool.len())].clone()).collect();
             ThreadSpec { ops, crash_on_fault: faults.crash && r.chance(1, 3) }
         })
